@@ -263,7 +263,9 @@ def c03_docs(tier):
 
 # ------------------------------------------------------------------ C17 universe
 ALPHABET = ["a", " ", '"', "'", "&", "<", ">", "#", BS, BS + '"', BS + "'", "&amp;", "&lt;", "&#34;", "#OUTQUOTES",
-            "##34;"]
+            "##34;",
+            # characters that mean something to the machinery a dumper is typically built from (fmt verbs, text/template)
+            "%", "%s", "{{"]
 
 
 def alpha_atoms(sym):
